@@ -180,6 +180,20 @@ def queryLine (env : Env) (line : String) : Option String :=
 
 def stepLine (env : Env) (tgt : StdT.Target) (w : World) (line : String) : World × String :=
   if line.trimAscii.toString == "" then (w, "") else
+  -- `hashN(self, data)` on a live hasher is the trait's provided `append` + `finalizeN` (src/traits.rs)
+  match (match line.trimAscii.toString.splitOn " " with
+    | ["hashfin", hs, wd, x] => (do
+        let h ← hs.toNat?; let wd ← parseWidth? wd; let d ← parseBytes? x
+        pure (h, wd, d) : Option (Nat × Width × List (BitVec 8)))
+    | _ => none) with
+  | some (h, wd, d) =>
+    match w.get h with
+    | none => (w, "nohandle")
+    | some _ =>
+      let (w1, _) := step env w (.append h d)
+      let (w2, o) := step env w1 (.fin h wd)
+      (w2, outStr o)
+  | none =>
   match ((specLine line).orElse (fun _ => queryLine env line)).orElse
       (fun _ => if env.cfg.arch == .x86_64 && env.cpu.avx2 then intrinLine (line.trimAscii.toString.splitOn " ")
                 else (if (line.trimAscii.toString.splitOn " ").headD "" == "intrin" then some "none" else none)) with
